@@ -15,7 +15,7 @@ def run(ck, build):
             "with the position 0, (c) the generic loop iteration compresses the next 16 input bytes and advances cursor/remaining in lock-step, (d) the 0..15 left-over bytes are stashed at buffer[0..r) "
             "with position r; finalize pads at the position and resets it. The abstract state (chaining value, buffered bytes, position) after a call is therefore a function of the concatenated "
             "stream only - induction over the sequence of calls gives split-independence")
-    ck.rule("R-C11-SMALL", "independent of the loop structure: for each of the 16 buffer positions and EVERY input length 0..48 (each one straight path with symbolic data) update compresses exactly "
+    ck.rule("R-C11-SMALL", "independent of the loop structure: for each of the 16 buffer positions and EVERY input length 0..100 (each one straight path with symbolic data) update compresses exactly "
             "the complete 16-byte blocks of (buffered bytes || input), in order, and leaves the left-over bytes and the position of the stream machine; longer inputs are R-C11-STREAM's")
     ck.rule("R-C11-INIT", "tinyjambu_hash_init sets every field another hash function reads before writing (L, k[0..3], position) whatever the object held; reinit does the same")
     ck.rule("R-C11-ONESHOT", "tinyjambu_hash(out,in,inlen) is init; update(in,inlen); finalize(out); free on one local state")
